@@ -39,13 +39,17 @@ strv = st.sampled_from(POOL)
 scalar = st.one_of(st.none(), st.booleans(), st.integers(-3, 3), st.sampled_from([0.5, 1.0, 2.5]), strv, strv)
 anyv = st.one_of(scalar, scalar, st.lists(scalar, max_size=3), st.dictionaries(strv, scalar, max_size=2))
 reqv = st.one_of(strv, strv, st.integers(-3, 3), st.booleans(), st.sampled_from([0.5, 1.0]))
-OFFSETS = ["now-leeway-1", "now-leeway", "now-leeway+1", "now+leeway-1", "now+leeway", "now+leeway+1", "past", "future"]
+OFFSETS = ["now-leeway-1", "now-leeway", "now-leeway+1", "now+leeway-1", "now+leeway", "now+leeway+1", "past", "future",
+           # JSON integers beyond what a double holds ("never expires" written with many digits), and very large doubles
+           "far-future", "far-past", "huge-double"]
 
 
 def time_value(off: str, now: int, leeway: int, as_float: bool, frac: float):
     base = {"now-leeway-1": now - leeway - 1, "now-leeway": now - leeway, "now-leeway+1": now - leeway + 1,
             "now+leeway-1": now + leeway - 1, "now+leeway": now + leeway, "now+leeway+1": now + leeway + 1,
-            "past": now - 10**6, "future": now + 10**6}[off]
+            "past": now - 10**6, "future": now + 10**6, "far-future": 10**320 + now, "far-past": -(10**320), "huge-double": 1e300}[off]
+    if off in ("far-future", "far-past"):
+        return base
     return float(base) + frac if as_float else base
 
 
